@@ -8,6 +8,31 @@ use kmer::kmer_minimisers::KmerMinimiserGenerator;
 use kmer::minimiser::MinimiserGenerator;
 use kmer::numeric_to_kmer;
 
+/// pseudo-random (LCG, fixed seeds) long sequence over ACGT with lower case, U and a few ambiguous bytes and runs
+pub fn long_input(len: usize, seed: u64) -> Vec<u8> {
+    let mut x = seed.wrapping_mul(0x9E37_79B9_7F4A_7C15) | 1;
+    let mut v: Vec<u8> = (0..len)
+        .map(|_| {
+            x = x.wrapping_mul(6364136223846793005).wrapping_add(1442695040888963407);
+            let r = (x >> 33) % 1000;
+            if r < 4 {
+                b'N'
+            } else {
+                b"ACGTacgtUu"[((x >> 43) % 10) as usize]
+            }
+        })
+        .collect();
+    // a long single-letter run and a long low-complexity stretch across the power-of-two positions
+    for (at, n, unit) in [(4000usize, 200usize, &b"A"[..]), (8100, 200, b"AC"), (16_300, 150, b"T")] {
+        if at + n < len {
+            for j in 0..n {
+                v[at + j] = unit[j % unit.len()];
+            }
+        }
+    }
+    v
+}
+
 fn in_small_scope(seq: &[u8], maxlen: usize) -> bool {
     seq.len() <= maxlen && seq.iter().all(|b| S5.contains(b))
 }
@@ -84,8 +109,8 @@ fn c01_nontrivial(seq: &[u8], k: usize) -> bool {
 
 pub fn c01(ctx: &mut Ctx) {
     // (1) small scope
-    let l = ctx.pick(8, 12);
-    let kmax_small = ctx.pick(31, 12);
+    let l = ctx.pick(8, 13);
+    let kmax_small = ctx.pick(31, 13);
     let mut n_small = 0u64;
     {
         let mut sh = ctx.shard;
@@ -213,6 +238,20 @@ pub fn c01(ctx: &mut Ctx) {
         }
     }
     ctx.rep.count("cases.large_k_family", n_fam);
+    // long inputs (beyond any block size a routine might switch strategy at), every k
+    let mut sh = ctx.shard;
+    let mut n_long = 0u64;
+    for (len, seed) in [(4097usize, 1u64), (8193, 2), (20_000, 3), (70_000, 4)] {
+        let s = long_input(len, seed);
+        for k in 1..=31usize {
+            if sh.mine() {
+                c01_case(ctx, "long-input", &s, k);
+                n_long += 1;
+                ctx.rep.nontrivial += 1;
+            }
+        }
+    }
+    ctx.rep.count("cases.long_inputs", n_long);
     if ctx.shard.is_first() {
         ctx.rep.sample("byte-class: \"AC\" + 0x7f + \"GT\", k=2".to_string());
         ctx.rep.sample(format!("transition-cover: prefix \"AN\" + state \"ACG\" + class 'N' + continuation \"TA\", k=4 (k 1..={}, D={})", kmax_t, d));
@@ -549,7 +588,7 @@ pub fn minimiser_spaces(ctx: &mut Ctx, which: u32) {
         }
     };
     // (1) small scope: all S5 strings, all pairs m <= w <= 5
-    let l = ctx.pick(9, 12);
+    let l = ctx.pick(9, 13);
     let mut pairs = Vec::new();
     for w in 1..=5usize {
         for m in 1..=w {
@@ -563,7 +602,7 @@ pub fn minimiser_spaces(ctx: &mut Ctx, which: u32) {
     let mut do_block = |ctx: &mut Ctx, todo: &mut Vec<Vec<u8>>| {
         for s in todo.drain(..) {
             for &(w, m) in &pairs {
-                if ctx.thorough() && ((w == 5 && s.len() > 10) || (w == 4 && s.len() > 11)) {
+                if ctx.thorough() && ((w == 5 && s.len() > 10) || (w == 4 && s.len() > 11) || (w == 3 && s.len() > 12)) {
                     continue;
                 }
                 run(ctx, "small-scope", &s, w, m);
@@ -695,6 +734,23 @@ pub fn minimiser_spaces(ctx: &mut Ctx, which: u32) {
         }
     }
     ctx.rep.count("cases.large_parameter_family", n_fam);
+    // long inputs
+    let mut sh = ctx.shard;
+    let mut n_long = 0u64;
+    for (len, seed) in [(4097usize, 1u64), (8193, 2), (20_000, 3), (70_000, 4)] {
+        let s = long_input(len, seed);
+        for (w, m) in [(1usize, 1usize), (2, 1), (3, 2), (5, 3), (8, 5), (12, 7), (16, 16), (31, 7), (31, 28), (40, 10), (91, 31), (300, 15)] {
+            if w > wmax {
+                continue;
+            }
+            if sh.mine() {
+                run(ctx, "long-input", &s, w, m);
+                n_long += 1;
+                ctx.rep.nontrivial += 1;
+            }
+        }
+    }
+    ctx.rep.count("cases.long_inputs", n_long);
     if ctx.shard.is_first() {
         ctx.rep.sample("small-scope: \"CCCCA\" w=4 m=2 -> runs [(CC,0,4),(CA,1,5)]".to_string());
         ctx.rep.sample("small-scope: \"ACG\" w=4 m=2 -> no run (shorter than w)".to_string());
